@@ -295,7 +295,7 @@ static inline SizeOp element_type_to_size_op(uint32_t vec_op_type, RegType reg_t
   SizeOp op = table.array[index];
   SizeOp modified_op { uint8_t(op.value & map.size_op_mask) };
 
-  if (!Support::bit_test(map.accept_mask, op.value)) {
+  if (!op.is_valid() || !Support::bit_test(map.accept_mask, op.value)) {
     modified_op.make_invalid();
   }
 
